@@ -169,3 +169,26 @@ def walk(group):
         yield l
         if hasattr(l, "_layers"):
             yield from walk(l)
+
+
+# ---- artboards ------------------------------------------------------------------------------
+def artboard_block(rect):
+    """An ARTBOARD_DATA1 tagged block with a real `artboardRect` (left, top, right, bottom), the
+    way Photoshop writes it (descriptor class `artboard`, rectangle of doubles)."""
+    from psd_tools.psd.descriptor import Descriptor, DescriptorBlock, Double, List, String
+    l, t, r, b = rect
+    rc = Descriptor(classID=b"classFloatRect")
+    for k, v in ((b"Top ", t), (b"Left", l), (b"Btom", b), (b"Rght", r)):
+        rc[k] = Double(float(v))
+    d = DescriptorBlock(classID=b"artboard", version=16)
+    d[b"artboardRect"] = rc
+    d[b"guideIndeces"] = List()
+    d[b"artboardPresetName"] = String("")
+    return TaggedBlock(key=Tag.ARTBOARD_DATA1, data=d)
+
+
+def make_artboard(group, rect):
+    """Give an API-built group the artboard block: the reader (`PSDImage._init`) types such a
+    group record as `Artboard` when the document is saved and opened again."""
+    group._record.tagged_blocks[Tag.ARTBOARD_DATA1] = artboard_block(rect)
+    return group
